@@ -59,6 +59,16 @@ def load_known_findings():
 # ----------------------------------------------------------------------------- one lemma instance
 
 
+_MISSING = object()
+
+
+def _static_attr(owner, attr):
+    for k in owner.__mro__:
+        if attr in k.__dict__:
+            return k.__dict__[attr]
+    raise KeyError(attr)
+
+
 def _native_run(lem, kwargs):
     """Run the lemma natively. -> ('return', None) | ('assert', msg) | ('raise', 'ExcName: msg')"""
     kwargs = dict(kwargs)
@@ -68,13 +78,16 @@ def _native_run(lem, kwargs):
     api._NATIVE_ORACLE[:] = list(kwargs.pop("__oracle__", []))
     saved = []
     for owner, attr, repl in lem.cfg.get("stubs", []):
-        saved.append((owner, attr, owner.__dict__[attr]))
+        saved.append((owner, attr, owner.__dict__.get(attr, _MISSING)))
         setattr(owner, attr, repl)
     try:
         return _native_run_inner(lem, kwargs)
     finally:
         for owner, attr, orig in saved:
-            setattr(owner, attr, orig)
+            if orig is _MISSING:
+                delattr(owner, attr)
+            else:
+                setattr(owner, attr, orig)
 
 
 class _NativeTimeout(BaseException):
@@ -170,7 +183,7 @@ def run_instance(job):
             if lem.cfg.get("stubs"):
                 sm = {}
                 for owner, attr, repl in lem.cfg["stubs"]:
-                    orig = owner.__dict__[attr]
+                    orig = _static_attr(owner, attr)
                     sm[getattr(orig, "__func__", orig)] = getattr(repl, "__func__", repl)
                 I.cfg["stubs_map"] = sm
             I.float_mode = ex.float_mode
@@ -496,6 +509,9 @@ def _slug(s):
 def write_evidence(prop, evidence):
     os.makedirs(os.path.join(VERIF, "evidence"), exist_ok=True)
     p = os.path.join(VERIF, "evidence", f"{prop}.json")
+    if evidence["coverage"]["obligations"] == 0 or evidence["coverage"]["discharged"] == 0:
+        evidence["level"] = "other"
+        evidence["coverage"]["explanation"] = "checker error, nothing was decided on this run: " + "; ".join(evidence["coverage"].get("messages", [])[:3])
     with open(p, "w") as fh:
         json.dump(evidence, fh, indent=1, default=str)
     try:
